@@ -133,7 +133,7 @@ pub fn confirm<S: Scenario>(s: &S, hist: &[S::Op], res: &ChildResult, rep: &mut 
     for round in 0..2 {
         let again = run_one(cfg, |em| s.exec(hist, em));
         if again.fingerprint() != fp {
-            let v = rep.violations.pop().expect("violation just pushed");
+            let v = rep.retract_last();
             rep.machinery_errors.push(format!(
                 "replay {round} of violation {} diverged: first run\n{fp}\nreplay\n{}",
                 v.signature,
@@ -232,7 +232,7 @@ pub fn sweep<C: Sync + Clone, FE, FJ>(
                 if single.exit == crate::runner::Exit::Hung {
                     // "no progress within the budget" can also be a starved machine: executions are
                     // deterministic, so a real hang hangs again with four times the patience
-                    let patient = RunCfg { parallel: cfg.parallel, hang_after: cfg.hang_after * 4, max_wall: cfg.max_wall * 4 };
+                    let patient = RunCfg { parallel: cfg.parallel, hang_after: cfg.hang_after * 4, max_wall: cfg.max_wall * 4, racy_confirm: 0 };
                     let again = run_one(&patient, |em| exec(c, em));
                     if again.exit != crate::runner::Exit::Hung {
                         rep.notes.push("a case that made no progress within the hang budget completed when re-run alone with four times the budget (machine load); the re-run is the observation".into());
@@ -249,7 +249,15 @@ pub fn sweep<C: Sync + Clone, FE, FJ>(
                     for round in 0..2 {
                         let again = run_one(cfg, |em| exec(c, em));
                         if again.fingerprint() != fp {
-                            let v = rep.violations.pop().expect("violation");
+                            if cfg.racy_confirm > 0 {
+                                let shown = (0..cfg.racy_confirm).filter(|_| run_one(cfg, |em| exec(c, em)).fingerprint() == fp).count();
+                                if shown >= 2 {
+                                    rep.notes.push(format!("a violation did not show in every re-execution of its case (the kernel decides when completions arrive); kept because it showed again in at least 2 of {} further re-executions", cfg.racy_confirm));
+                                    rep.notes.dedup();
+                                    break;
+                                }
+                            }
+                            let v = rep.retract_last();
                             rep.machinery_errors.push(format!(
                                 "replay {round} of violation {} diverged:\n{fp}\nvs\n{}",
                                 v.signature,
